@@ -273,7 +273,7 @@ func (r *vRec) Write(b []byte) (int, error) {
 	if r.broken {
 		return 0, vErrBroken
 	}
-	r.chunks = append(r.chunks, b)
+	r.chunks = append(r.chunks, verifKeep(b))
 	return len(b), nil
 }
 
